@@ -10,15 +10,16 @@ import (
 )
 
 var (
-	flagRepo   = flag.String("repo", "/repo", "repository to analyse")
-	flagProp   = flag.String("prop", "", "property id (C01..C20) or 'all'")
-	flagTier   = flag.String("tier", "quick", "quick|thorough")
-	flagDump   = flag.String("dump", "", "debug: dump the inlined graph and product atoms of a function (abbreviated full name)")
-	flagDepth  = flag.Int("depth", 8, "inlining depth")
-	flagReplay = flag.String("replay", "", "replay a violation file")
-	flagVerifD = flag.String("verif", "/verif", "verification directory (evidence, known findings)")
-	flagNoInl  = flag.String("noinline", "", "debug: comma separated functions not to inline")
-	flagV      = flag.Bool("v", false, "verbose")
+	flagRepo     = flag.String("repo", "/repo", "repository to analyse")
+	flagProp     = flag.String("prop", "", "property id (C01..C20) or 'all'")
+	flagTier     = flag.String("tier", "quick", "quick|thorough")
+	flagDump     = flag.String("dump", "", "debug: dump the inlined graph and product atoms of a function (abbreviated full name)")
+	flagDepth    = flag.Int("depth", 8, "inlining depth")
+	flagReplay   = flag.String("replay", "", "replay a violation file")
+	flagVerifD   = flag.String("verif", "/verif", "verification directory (evidence, known findings)")
+	flagNoInl    = flag.String("noinline", "", "debug: comma separated functions not to inline")
+	flagV        = flag.Bool("v", false, "verbose")
+	flagSelftest = flag.Bool("selftest", false, "also run the property's mutant/seeded/revert/benign corpus on scratch copies (always on in the thorough tier)")
 )
 
 func main() {
